@@ -458,7 +458,7 @@ func checkDetail(c *Ctx, ref *Ref, sc saveCase, dir, sid string, have map[string
 			sum += u
 		}
 		if math.Abs(sum-total) > tol {
-			fail("C12: totals in the saved files equal the sum of the per-planning-unit values (C11, output side)", "saved:total-differs-from-sum-of-units",
+			fail("C11: totals in the saved files equal the sum of the per-planning-unit values (output side)", "saved:total-differs-from-sum-of-units",
 				fmt.Sprintf("%s: %s total %v, per-planning-unit values sum to %v", file, name, total, sum))
 		}
 		c.Stat("save: detail variable re-summed")
